@@ -13,7 +13,8 @@ Definition iobs := (bool * option (list N * N))%type.
 Definition iobs_of (s : list ver) (it : iter) : iobs :=
   if it_valid s it then (true, option_map (fun v => (vitem v, vid v)) (it_get s it)) else (false, None).
 
-Fixpoint run_iter (kc : list N -> list N -> comparison) (s : list ver) (it : iter) (sc : list iop) : list iobs :=
+(** [positioned]: a Seek/SeekFirst has happened; before that the harness reports (false, None) *)
+Fixpoint run_iter_from (positioned : bool) (kc : list N -> list N -> comparison) (s : list ver) (it : iter) (sc : list iop) : list iobs :=
   match sc with
   | [] => []
   | o :: r =>
@@ -21,11 +22,13 @@ Fixpoint run_iter (kc : list N -> list N -> comparison) (s : list ver) (it : ite
                | ISeekFirst => it_seek_first s it
                | ISeek bs => it_seek kc s it bs
                | INext => if it_valid s it then it_next kc s it else it
-               | IRefresh => it_refresh kc s it
+               | IRefresh => if positioned then it_refresh kc s it else it
                | ISetRate z => mkIter (it_sn it) (it_pos it) (it_count it) z
                end in
-    iobs_of s it' :: run_iter kc s it' r
+    let pos' := match o with ISeekFirst | ISeek _ => true | _ => positioned end in
+    (if pos' then iobs_of s it' else (false, None)) :: run_iter_from pos' kc s it' r
   end.
+Definition run_iter := run_iter_from false.
 
 Inductive case :=
 | CMvcc (cmpk : N) (ops : list op) (obs : list out)
